@@ -25,6 +25,7 @@ mod c13;
 mod c14;
 mod c15;
 mod c16;
+mod c18;
 mod c20;
 mod sendsys;
 mod chan;
@@ -87,6 +88,7 @@ fn main() {
             "C14" => c14::replay(&v["replay"]),
             "C15" => c15::replay(&v["replay"]),
             "C16" => c16::replay(&v["replay"]),
+            "C18" => c18::replay(&v["replay"]),
             "C20" => c20::replay(&v["replay"]),
             _ => {
                 eprintln!("no replay for {}", id);
@@ -119,6 +121,7 @@ fn main() {
             "C14" => c14::run(thorough),
             "C15" => c15::run(thorough),
             "C16" => c16::run(thorough),
+            "C18" => c18::run(thorough),
             "C20" => c20::run(thorough),
             other => {
                 eprintln!("unknown check {}", other);
